@@ -93,6 +93,8 @@ def check(ctx: Ctx) -> None:
     from ..engines.mustflow import check_sorted_invariant
     nsi = check_sorted_invariant(ctx, "ABS-SORTED")
     ctx.floor("AbsoluteSequence methods that change times/order", nsi, 4)
+    from ..engines.mustflow import check_sorted_construction
+    check_sorted_construction(ctx, "ABS-SORTED")
 
 
 def _judge(ctx: Ctx, file, fi, label, exits, problems, rule_exit="TS1"):
